@@ -174,6 +174,9 @@ pub fn finish(prop: &str, tier: &str, seed: i64, t0: Instant, out: Outcome, mode
     for (k, v) in &out.acc.counts {
         out!("   count {:<50} {}", k, v);
     }
+    for n in out.acc.notes.iter().take(12) {
+        out!("   note  {}", n);
+    }
     for (k, v) in &out.acc.maxima {
         out!("   max   {:<50} {}", k, v);
     }
